@@ -26,6 +26,13 @@ class Affine(FloatOperation):
         return FloatDataType(gain * data.data + offset)
 
 
+class Flagged(FloatOperation):
+    """parameters whose defaults are singletons / interned objects (None, True, 0, a short string)"""
+
+    def _process_logic(self, data, limit=None, enabled: bool = True, shift: int = 0, mode: str = "linear"):
+        return FloatDataType(data.data + shift)
+
+
 CASES = [
     ("source-with-default", FloatValueDataSourceWithDefault, None),
     ("operation-required", FloatMultiplyOperation, FloatValueDataSourceWithDefault),
@@ -66,6 +73,26 @@ for label, proc, upstream in CASES:
                 failures.append(dict(case, **{"class": "parameter-value-is-not-the-resolved-value", "got": params[n], "want": want_val}))
         if len(samples) < 2:
             samples.append({"case": label, "placement": dict(zip(names, placement)), "parameters": params, "sources": sources})
+# ---- a context value that IS the default object (None / True / 0 / interned string) still comes from the context ----------------
+SAME_AS_DEFAULT = {"limit": None, "enabled": True, "shift": 0, "mode": "linear"}
+for n_, v_ in SAME_AS_DEFAULT.items():
+    evaluations += 1
+    distinct.add(("context-value-identical-to-the-default", n_))
+    out = tmp / f"same_{n_}.jsonl"
+    try:
+        Pipeline([{"processor": FloatValueDataSourceWithDefault}, {"processor": Flagged}], trace=JsonlTraceDriver(str(out), detail="all")).process(
+            Payload(NoDataType(), ContextType({n_: v_})))
+    except Exception as e:       # noqa
+        failures.append({"class": "provenance-case-raised", "parameter": n_, "exc": repr(e)[:200]})
+        continue
+    ser = [json.loads(l) for l in out.read_text().splitlines() if l.strip() and json.loads(l).get("record_type") == "ser"][-1]
+    src = ser["processor"].get("parameter_sources", {})
+    if src.get(n_) != "context":
+        failures.append({"class": "parameter-source-wrong:context-value-identical-to-the-default", "parameter": n_, "got": src.get(n_)})
+    for other in SAME_AS_DEFAULT:
+        if other != n_ and src.get(other) != "default":
+            failures.append({"class": "parameter-source-wrong:default", "parameter": other, "got": src.get(other)})
+
 # ---- digests are functions of content: equal contexts (same mapping content at every depth, other insertion order) give the
 #      same canonical bytes, and a key rewritten with equal content is not reported as updated ---------------------------------
 from semantiva.trace._utils import canonical_json_bytes
